@@ -123,7 +123,19 @@ def run_harness(cfg, seed, tier, log):
     os.makedirs(os.path.join(HARNESS, "bin"), exist_ok=True)
     shutil.copyfile(os.path.join(REPO, "go.sum"), os.path.join(HARNESS, "go.sum"))
     binp = os.path.join(HARNESS, "bin", name)
-    rc, out = sh(["go", "build", "-tags", "verif", "-o", binp, "./cmd/" + name], cwd=HARNESS, env=GOENV, timeout=900)
+    modargs = []
+    if REPO != "/repo":
+        # scratch worktree (used for mutation testing only): same module file with the replace redirected
+        tag = hashlib.sha1(REPO.encode()).hexdigest()[:8]
+        mf = os.path.join(HARNESS, "alt-%s.mod" % tag)
+        with open(os.path.join(HARNESS, "go.mod")) as f:
+            gm = f.read().replace("=> /repo", "=> " + REPO)
+        with open(mf, "w") as f:
+            f.write(gm)
+        shutil.copyfile(os.path.join(REPO, "go.sum"), os.path.join(HARNESS, "alt-%s.sum" % tag))
+        modargs = ["-modfile=" + mf]
+        binp = binp + "-" + tag
+    rc, out = sh(["go", "build"] + modargs + ["-tags", "verif", "-o", binp, "./cmd/" + name], cwd=HARNESS, env=GOENV, timeout=900)
     log.append(("harness build", rc, out[-4000:]))
     if rc != 0:
         return None, "harness does not build against /repo: " + out[-1500:]
